@@ -8,10 +8,20 @@
   General theorems hold for ALL tables, dates, tag lists and extension maps.
   The `Expect` namespace re-proves, on every run, the obligations over the
   tables regenerated from /repo (registry and data/regimes/*.json).
+
+  `namespace Src` (at the end) ties the model to the source: `value`,
+  `hasAnyTag`, `extContains`, `rateDef` and `categoryDef` are proved equal to
+  the definitions that the go2lean translator regenerates from /repo/tax on
+  every run (Generated/RatesSrc.lean), for all arguments; `prepareRate` is
+  proved to agree with the regenerated `(*Combo).prepareRate` (same error, same
+  percent and surcharge, the same extension map).
 -/
 import GoblVerif.Spec.C12
 import GoblVerif.Proofs.Rates
 import GoblVerif.Generated.RateTables
+import GoblVerif.Generated.RatesSrc
+import GoblVerif.Proofs.GoSemList
+import GoblVerif.Proofs.RatesSrc
 
 namespace GoblVerif.Props.C12
 open GoblVerif.Rates GoblVerif.Spec.C12 GoblVerif.Proofs.Rates
@@ -339,5 +349,447 @@ theorem shipped_unqualified_value_eq_inForce (r : RateDef) (hr : r ∈ allRates 
     rw [e1]; rw [e2] at h3; exact h3
 
 end Expect
+
+/-! ## the model is the source
+
+`Generated/RatesSrc.lean` is regenerated on every run from /repo/tax
+(regime_def.go, regimes.go, extensions.go) by the go2lean translator
+(harness/cmd/extract/go2lean*.go, configuration ratessrc.go): one Lean
+definition per Go function, loops, early returns and `continue` included.  The
+Go structs are mapped onto the records of Model/Rates.lean (`struct_*_as_mapped`
+pins the Go declarations, the generated `example`s check the field types).
+The theorems `src_*` below prove, for ALL arguments, that each regenerated
+definition equals the hand-written model function the theorems of this file
+are about; `spec_of_the_source_*` restate the main ones over the regenerated
+code.  An edit of one of these Go functions changes the regenerated definition
+and the corresponding `src_*` proof no longer closes.
+
+Trusted: the translator's reading of Go (header of Generated/RatesSrc.lean);
+the assumptions it lists and `assumptions_as_reviewed` pins — the slices of
+pointers hold no nil (a nil row makes the Go code panic: C14), maps are
+association lists with distinct keys (the one `range` over a map is shown
+order-independent in `src_Contains_map_order`, lookups in `map_lookup_order`),
+`cal.Date` / `civil.Date` are the model's `Date` and `IsValid` / `After` /
+`Before` / `Key.Has` mean `Date.isValid` / `after` / `before` / `keyHas` (the
+differential run samples these four against the real library). -/
+namespace Src
+open GoblVerif.Generated GoblVerif.GoSem GoblVerif.Proofs.RatesSrc
+
+/-! ### the translation is complete, and the struct mapping is what the Go declarations say -/
+
+theorem all_translated : RatesSrc.untranslated = [] := by decide
+
+theorem translated_as_listed :
+    RatesSrc.translated = ["RateValueDef.hasAnyTag", "Extensions.Contains", "RateDef.Value",
+      "CategoryDef.RateDef", "RegimeDef.CategoryDef", "Combo.prepareRate"] := by decide
+
+theorem struct_RateValueDef_as_mapped :
+    RatesSrc.struct_RateValueDef = [("Tags", "[]cbc.Key"), ("Ext", "Extensions"), ("Since", "*cal.Date"),
+      ("Percent", "num.Percentage"), ("Surcharge", "*num.Percentage"), ("Disabled", "bool")] ∧
+    RatesSrc.structLean_RateValueDef = ("GoblVerif.Rates.RateValue", ["tags", "ext", "since", "percent", "surcharge", "disabled"]) ∧
+    RatesSrc.structOmitted_RateValueDef = [] := by decide
+
+/-- `Name`, `Description` (translations) and `Meta` are not represented; no translated function reads them -/
+theorem struct_RateDef_as_mapped :
+    RatesSrc.struct_RateDef = [("Key", "cbc.Key"), ("Name", "i18n.String"), ("Description", "i18n.String"),
+      ("Exempt", "bool"), ("Values", "[]*RateValueDef"), ("Ext", "Extensions"), ("Meta", "cbc.Meta")] ∧
+    RatesSrc.structLean_RateDef = ("GoblVerif.Rates.RateDef", ["key", "exempt", "values", "ext"]) ∧
+    RatesSrc.structOmitted_RateDef = ["Name", "Description", "Meta"] := by decide
+
+theorem struct_CategoryDef_as_mapped :
+    RatesSrc.struct_CategoryDef = [("Code", "cbc.Code"), ("Name", "i18n.String"), ("Title", "i18n.String"),
+      ("Description", "*i18n.String"), ("Retained", "bool"), ("Rates", "[]*RateDef"), ("Extensions", "[]cbc.Key"),
+      ("Map", "cbc.CodeMap"), ("Sources", "[]*cbc.Source"), ("Ext", "Extensions"), ("Meta", "cbc.Meta")] ∧
+    RatesSrc.structLean_CategoryDef = ("GoblVerif.Rates.CategoryDef", ["code", "retained", "rates"]) ∧
+    RatesSrc.structOmitted_CategoryDef = ["Name", "Title", "Description", "Extensions", "Map", "Sources", "Ext", "Meta"] := by
+  decide
+
+theorem struct_RegimeDef_as_mapped :
+    RatesSrc.structLean_RegimeDef = ("GoblVerif.Rates.RegimeTable", ["country", "alt", "zone", "categories"]) ∧
+    RatesSrc.struct_RegimeDef.filter (fun f => f.1 ∈ ["Country", "AltCountryCodes", "Zone", "Categories"]) =
+      [("Country", "l10n.TaxCountryCode"), ("AltCountryCodes", "[]l10n.Code"), ("Zone", "l10n.Code"),
+       ("Categories", "[]*CategoryDef")] ∧
+    RatesSrc.structOmitted_RegimeDef.length + 4 = RatesSrc.struct_RegimeDef.length := by decide
+
+/-- the unexported `retained` flag is not part of C12 and is not represented -/
+theorem struct_Combo_as_mapped :
+    RatesSrc.struct_Combo = [("Category", "cbc.Code"), ("Country", "l10n.TaxCountryCode"), ("Rate", "cbc.Key"),
+      ("Percent", "*num.Percentage"), ("Surcharge", "*num.Percentage"), ("Ext", "Extensions"), ("retained", "bool")] ∧
+    RatesSrc.structLean_Combo = ("GoblVerif.Rates.Combo", ["category", "country", "rate", "percent", "surcharge", "ext"]) ∧
+    RatesSrc.structOmitted_Combo = ["retained"] := by decide
+
+/-- what the translation assumes beyond its general reading of Go: which slices
+    hold no nil, which loops range over a map (`src_Contains_map_order`,
+    `src_prepareRate_map_order`), where a map is written (`c.Ext`, the combo's
+    own map: `prepareRate` is the only holder the model knows) and nil-tested
+    (`if c.Ext == nil { c.Ext = make(Extensions) }`: the same for an empty map),
+    that `prepareRate` returns its receiver, which types are opaque and what the
+    primitives mean; no unsigned subtraction, no condition-controlled loop -/
+theorem assumptions_as_reviewed :
+    RatesSrc.nonNilElems = ["[]*CategoryDef", "[]*RateDef", "[]*RateValueDef"] ∧
+    RatesSrc.mapRanges = [("Extensions.Contains", "other"), ("Combo.prepareRate", "rate.Ext")] ∧
+    RatesSrc.mapWrites = [("Combo.prepareRate", "c.Ext[k]")] ∧
+    RatesSrc.mapNilTests = [("Combo.prepareRate", "c.Ext == nil")] ∧
+    RatesSrc.inOutParams = [("Combo.prepareRate", "c")] ∧
+    RatesSrc.namedTypes = [("cal.Date", "struct{civil.Date}", "GoblVerif.Rates.Date"),
+      ("error", "interface{Error() string}", "Option String"),
+      ("num.Percentage", "struct{amount num.Amount}", "GoblVerif.Rates.Pct")] ∧
+    RatesSrc.primitives = [("Error.WithMessage", "(some {0} : Option String)"),
+      ("cal.Date.Date", "{0}"),
+      ("cbc.Key.Has", "GoblVerif.Rates.keyHas {0} {1}"),
+      ("civil.Date.After", "GoblVerif.Rates.Date.after {0} {1}"),
+      ("civil.Date.Before", "GoblVerif.Rates.Date.before {0} {1}"),
+      ("civil.Date.IsValid", "GoblVerif.Rates.Date.isValid {0}")] ∧
+    RatesSrc.natSubs = [] ∧ RatesSrc.fuelChecks = [] := by decide
+
+/-! ### regenerated definition = model, for all arguments -/
+
+/-- `(*RateValueDef).hasAnyTag` -/
+theorem src_hasAnyTag (rv : RateValue) (tags : List String) :
+    RatesSrc.RateValueDef_hasAnyTag rv tags = hasAnyTag rv.tags tags := by
+  unfold RatesSrc.RateValueDef_hasAnyTag hasAnyTag
+  simp only [forIn_list_id, pure_bind]
+  simp only [Id.run, id_pure, forList_any]
+  rw [forList_stateless _ (fun t => if (tags.any fun tag => t == tag) = true then some true else none)
+    (by intro x s; by_cases h : (tags.any fun tag => x == tag) = true <;> simp_all)]
+  rw [any_findSome rv.tags (fun t => tags.any fun tag => t == tag)]
+  cases (rv.tags.any fun t => tags.any fun tag => t == tag) <;> rfl
+
+/-- `tax.Extensions.Contains` -/
+theorem src_Contains (em other : Ext) : RatesSrc.Extensions_Contains em other = extContains em other := by
+  unfold RatesSrc.Extensions_Contains extContains
+  simp only [forIn_list_id, pure_bind]
+  simp only [Id.run, id_pure]
+  by_cases he : em = []
+  · subst he; simp
+  · have hl : ¬ ((em.length : Int) = 0) := by
+      intro h; apply he; exact List.length_eq_zero_iff.mp (by omega)
+    have hi : em.isEmpty = false := by simpa using he
+    simp only [hl, hi, if_false]
+    rw [forList_stateless _ (fun kv => if (extLookup em kv.1 == some kv.2) = true then none else some false)
+      (by
+        intro x s
+        rw [extLookup_eq_lookup]
+        cases hlk : List.lookup x.1 em with
+        | none => simp
+        | some v => by_cases hv : v = x.2 <;> simp [hv])]
+    rw [all_findSome other (fun kv => extLookup em kv.1 == some kv.2)]
+    cases (other.all fun kv => extLookup em kv.1 == some kv.2) <;> rfl
+
+/-- the obligation of `mapRanges`: Go ranges over `other` in an unspecified
+    order, the translation in list order — the answer is the same for every order -/
+theorem src_Contains_map_order (em other other' : Ext) (hp : other.Perm other') :
+    RatesSrc.Extensions_Contains em other' = RatesSrc.Extensions_Contains em other := by
+  rw [src_Contains, src_Contains]
+  unfold extContains
+  rw [hp.all_eq]
+
+/-- … and reading the receiver does not depend on how its association list is
+    ordered either (distinct keys: the invariant of a Go map) -/
+theorem map_lookup_order (em em' other : Ext) (hp : em.Perm em') (hn : (em.map Prod.fst).Nodup) :
+    RatesSrc.Extensions_Contains em' other = RatesSrc.Extensions_Contains em other := by
+  rw [src_Contains, src_Contains]
+  unfold extContains
+  rw [hp.isEmpty_eq]
+  congr 2
+  funext kv
+  rw [extLookup_eq_lookup, extLookup_eq_lookup, lookup_perm hp hn]
+
+/-- `RateDef.Value` = the first row that is applicable and has started -/
+theorem value_eq_find_first (vals : List RateValue) (date : Date) (tags : List String) (ext : Ext) :
+    value vals date tags ext = vals.find? (fun rv => applicable rv tags ext && started rv date) := by
+  induction vals with
+  | nil => rfl
+  | cons rv rest ih =>
+    simp only [value, List.find?, applicable, ih]
+    by_cases h1 : rv.tags.isEmpty = true <;> by_cases h2 : hasAnyTag rv.tags tags = true <;>
+      by_cases h3 : rv.ext.isEmpty = true <;> by_cases h4 : extContains ext rv.ext = true <;>
+      by_cases h5 : started rv date = true <;> simp [h1, h2, h3, h4, h5]
+
+/-- **`(*RateDef).Value`, regenerated from the source, is the model's `value`**
+    — for every table, date, tag list and extension map -/
+theorem src_Value (r : RateDef) (date : Date) (tags : List String) (ext : Ext) :
+    RatesSrc.RateDef_Value r date tags ext = value r.values date tags ext := by
+  unfold RatesSrc.RateDef_Value
+  simp only [forIn_list_id, pure_bind]
+  simp only [Id.run, id_pure, src_hasAnyTag, src_Contains]
+  rw [forList_stateless _ (fun rv => if (applicable rv tags ext && started rv date) = true then some (some rv) else none)
+    (by
+      intro x s
+      have e1 : ((x.tags.length : Int) > 0) ↔ x.tags.isEmpty = false := by
+        cases x.tags <;> simp
+      have e2 : ((x.ext.length : Int) > 0) ↔ x.ext.isEmpty = false := by
+        cases x.ext <;> simp
+      have e3 : ((x.since.isNone = true ∨ ¬x.since.get!.isValid = true) ∨ ¬x.since.get!.after date = true)
+          ↔ started x date = true := by
+        unfold started
+        cases x.since <;> simp
+      simp only [e1, e2, e3, applicable]
+      by_cases h1 : x.tags.isEmpty = true <;> by_cases h2 : hasAnyTag x.tags tags = true <;>
+        by_cases h3 : x.ext.isEmpty = true <;> by_cases h4 : extContains ext x.ext = true <;>
+        by_cases h5 : started x date = true <;> simp [h1, h2, h3, h4, h5])]
+  rw [value_eq_find_first]
+  generalize r.values = vals
+  induction vals with
+  | nil => rfl
+  | cons a l ih =>
+    simp only [List.findSome?, List.find?]
+    cases h : (applicable a tags ext && started a date)
+    · simpa using ih
+    · simp
+
+/-- `(*CategoryDef).RateDef`: exact key first, then `key.Has` -/
+theorem src_RateDef (c : CategoryDef) (key : String) :
+    RatesSrc.CategoryDef_RateDef c key = rateDef c.rates key := by
+  unfold RatesSrc.CategoryDef_RateDef rateDef
+  simp only [forIn_list_id, pure_bind]
+  simp only [Id.run, id_pure]
+  have find1 : ∀ (l : List RateDef) (p : RateDef → Bool),
+      (l.findSome? fun r => if p r = true then some (some r) else none) = (l.find? p).map some := by
+    intro l p
+    induction l with
+    | nil => rfl
+    | cons a l ih => simp only [List.findSome?, List.find?]; cases h : p a <;> simp [ih]
+  rw [forList_stateless _ (fun r => if (r.key == key) = true then some (some r) else none)
+      (by intro x s; by_cases h : x.key = key <;> simp [h]),
+    forList_stateless _ (fun r => if keyHas key r.key = true then some (some r) else none)
+      (by intro x s; by_cases h : keyHas key x.key = true <;> simp [h]),
+    find1, find1]
+  cases List.find? (fun r => r.key == key) c.rates with
+  | some r => rfl
+  | none => cases List.find? (fun r => keyHas key r.key) c.rates <;> rfl
+
+/-- `(*RegimeDef).CategoryDef` (a nil regime has no categories) -/
+theorem src_CategoryDef (r : RegimeTable) (code : String) :
+    RatesSrc.RegimeDef_CategoryDef (some r) code = categoryDef r.categories code ∧
+    RatesSrc.RegimeDef_CategoryDef none code = none := by
+  constructor
+  · unfold RatesSrc.RegimeDef_CategoryDef categoryDef
+    simp only [forIn_list_id, pure_bind]
+    simp only [Id.run, id_pure]
+    have find1 : ∀ (l : List CategoryDef) (p : CategoryDef → Bool),
+        (l.findSome? fun r => if p r = true then some (some r) else none) = (l.find? p).map some := by
+      intro l p
+      induction l with
+      | nil => rfl
+      | cons a l ih => simp only [List.findSome?, List.find?]; cases h : p a <;> simp [ih]
+    simp only [Option.isNone_some, Bool.false_eq_true, if_false, Option.get!_some]
+    rw [forList_stateless _ (fun c => if (c.code == code) = true then some (some c) else none)
+        (by intro x s; by_cases h : x.code = code <;> simp [h]), find1]
+    cases List.find? (fun c => c.code == code) r.categories <;> rfl
+  · rfl
+
+
+/-! ### `(*Combo).prepareRate` -/
+
+/-- `for k, v := range rate.Ext { c.Ext[k] = v }` is the merge `mergeM` -/
+theorem src_merge_loop (l : Ext) (c0 : Combo) :
+    forList (fun (x : String × String) (s : Combo) => ForInStep.yield { s with ext := mapSet s.ext x.1 x.2 }) l c0
+      = { c0 with ext := mergeM c0.ext l } := by
+  rw [forList_fold (fun (s : Combo) (x : String × String) => { s with ext := mapSet s.ext x.1 x.2 })]
+  unfold mergeM
+  induction l generalizing c0 with
+  | nil => rfl
+  | cons a l ih => simp only [List.foldl_cons]; rw [ih]
+
+/-- the part of `prepareRate` after the extensions have been merged (used three times below) -/
+local macro "prepare_tail " rate:ident ", " date:ident ", " tags:ident ", " E:term : tactic => `(tactic| (
+  by_cases hx : ($rate).exempt = true
+  · simp only [hx, if_true]
+  · simp only [hx]
+    have hl : ((($rate).values.length : Int) = 0) ↔ ($rate).values.isEmpty = true := by
+      cases ($rate).values <;> simp <;> omega
+    simp only [hl]
+    by_cases hv : ($rate).values.isEmpty = true
+    · simp only [hv, if_true]
+    · simp only [hv, if_false, Bool.false_eq_true]
+      cases value ($rate).values $date $tags $E with
+      | none => rfl
+      | some v =>
+        simp only [Option.isNone_some, Bool.false_eq_true, if_false, Option.get!_some]
+        cases v with
+        | mk t e s p sur d => cases sur <;> rfl))
+
+/-- **`(*Combo).prepareRate`, regenerated from the source** (the receiver as an
+    in-out parameter: the result is the error key and the combo as the call
+    leaves it) **is `prepareRateM`**, the same function written as one
+    expression — for every combo, category, tag list and date -/
+theorem src_prepareRate (c : Combo) (cat : CategoryDef) (tags : List String) (date : Date) :
+    RatesSrc.Combo_prepareRate c cat tags date = prepareRateM cat c tags date := by
+  unfold RatesSrc.Combo_prepareRate prepareRateM prepareWith
+  simp only [forIn_list_id, pure_bind]
+  simp only [Id.run, id_pure, src_merge_loop, src_RateDef, src_Value]
+  by_cases hk : c.rate = ""
+  · simp [hk]
+  · have hk' : (c.rate == "") = false := by simpa using hk
+    simp only [hk, hk', if_false, Bool.false_eq_true]
+    obtain hr | ⟨rate, hr⟩ : rateDef cat.rates c.rate = none ∨ ∃ r, rateDef cat.rates c.rate = some r := by
+      cases rateDef cat.rates c.rate <;> simp
+    · simp [hr]
+    · have h1 : (rateDef cat.rates c.rate).isNone = false := by rw [hr]; rfl
+      have h2 : (rateDef cat.rates c.rate).get! = rate := by rw [hr]; rfl
+      simp only [h1, h2, Bool.false_eq_true, if_false]
+      simp only [hr]
+      unfold mergedExtM
+      by_cases hcond : c.country = "" ∧ (rate.ext.length : Int) > 0
+      · have hM : (c.country == "" && !rate.ext.isEmpty) = true := by
+          obtain ⟨h1, h2⟩ := hcond
+          have : rate.ext.isEmpty = false := by
+            cases hre : rate.ext with
+            | nil => rw [hre] at h2; simp at h2
+            | cons _ _ => rfl
+          simp [h1, this]
+        simp only [hM, ↓reduceIte]
+        simp only [hcond, and_self, ↓reduceIte]
+        by_cases he : c.ext.isEmpty = true
+        · have hce : c.ext = [] := List.isEmpty_iff.mp he
+          rw [if_pos he]
+          rw [hce]
+          prepare_tail rate, date, tags, (mergeM [] rate.ext)
+        · rw [if_neg he]
+          prepare_tail rate, date, tags, (mergeM c.ext rate.ext)
+      · have hM : (c.country == "" && !rate.ext.isEmpty) = false := by
+          by_cases h1 : c.country = ""
+          · have h2 : ¬ ((rate.ext.length : Int) > 0) := fun h => hcond ⟨h1, h⟩
+            have : rate.ext = [] := by
+              cases hre : rate.ext with
+              | nil => rfl
+              | cons _ _ => rw [hre] at h2; simp at h2
+            simp [this]
+          · simp [h1]
+        simp only [hM, Bool.false_eq_true, ↓reduceIte]
+        simp only [hcond, ↓reduceIte]
+        prepare_tail rate, date, tags, c.ext
+
+/-- **the regenerated `prepareRate` agrees with the model's `prepareRate`**: it
+    fails exactly when the model does and with the same error; otherwise the
+    combo it leaves has the model's category, country, rate key, percent and
+    surcharge and the same extension map (`MapEq`: the model keeps the
+    association list sorted, the code appends) -/
+theorem src_prepareRate_model (c : Combo) (cat : CategoryDef) (tags : List String) (date : Date) :
+    match prepareRate cat c tags date with
+    | .error e => (RatesSrc.Combo_prepareRate c cat tags date).1 = some (errKey e)
+    | .ok c' =>
+      (RatesSrc.Combo_prepareRate c cat tags date).1 = none ∧
+      (RatesSrc.Combo_prepareRate c cat tags date).2.category = c'.category ∧
+      (RatesSrc.Combo_prepareRate c cat tags date).2.country = c'.country ∧
+      (RatesSrc.Combo_prepareRate c cat tags date).2.rate = c'.rate ∧
+      (RatesSrc.Combo_prepareRate c cat tags date).2.percent = c'.percent ∧
+      (RatesSrc.Combo_prepareRate c cat tags date).2.surcharge = c'.surcharge ∧
+      MapEq (RatesSrc.Combo_prepareRate c cat tags date).2.ext c'.ext := by
+  rw [src_prepareRate]; exact prepareRateM_agrees cat c tags date
+
+/-- the obligation of `mapRanges` for `range rate.Ext`: whatever the order in
+    which Go visits the rate's extensions (distinct keys), the part of
+    `prepareRate` after the lookup of the rate gives the same error, percent,
+    surcharge and extension map -/
+theorem src_prepareRate_map_order (rate : RateDef) (e' : Ext) (hp : rate.ext.Perm e')
+    (hn : (rate.ext.map Prod.fst).Nodup) (c : Combo) (tags : List String) (date : Date) :
+    (prepareWith { rate with ext := e' } c tags date).1 = (prepareWith rate c tags date).1 ∧
+    (prepareWith { rate with ext := e' } c tags date).2.percent = (prepareWith rate c tags date).2.percent ∧
+    (prepareWith { rate with ext := e' } c tags date).2.surcharge = (prepareWith rate c tags date).2.surcharge ∧
+    MapEq (prepareWith { rate with ext := e' } c tags date).2.ext (prepareWith rate c tags date).2.ext := by
+  have h := prepareWith_order rate e' hp hn c tags date
+  exact ⟨h.1, h.2.2.2.2.1, h.2.2.2.2.2.1, h.2.2.2.2.2.2⟩
+
+example : ([("a", "1"), ("b", "2")] : Ext).Perm [("b", "2"), ("a", "1")] ∧
+    (([("a", "1"), ("b", "2")] : Ext).map Prod.fst).Nodup := by decide
+
+/-- … and everything that reads the combo's extensions afterwards reads them as a map -/
+theorem src_Value_reads_ext_as_map (r : RateDef) (date : Date) (tags : List String) (a b : Ext) (h : MapEq a b) :
+    RatesSrc.RateDef_Value r date tags a = RatesSrc.RateDef_Value r date tags b := by
+  rw [src_Value, src_Value]; exact value_mapEq h r.values date tags
+
+example : MapEq [("a", "1"), ("b", "2")] [("b", "2"), ("a", "1")] := by
+  intro k
+  rw [lookup_cons_ite, lookup_cons_ite, lookup_cons_ite, lookup_cons_ite]
+  by_cases h1 : k = "a"
+  · subst h1; decide
+  · by_cases h2 : k = "b"
+    · subst h2; decide
+    · simp [h1, h2]
+
+/-! ### the theorems of this file, read off the regenerated code -/
+
+/-- **the regenerated `RateDef.Value` returns the value in force** (see `value_eq_inForce`) -/
+theorem spec_of_the_source_Value (r : RateDef) (d : Date) (tags : List String) (ext : Ext)
+    (hreal : ∀ v ∈ r.values, sinceReal v = true)
+    (hdesc : descendingFor r.values tags ext = true) :
+    RatesSrc.RateDef_Value r d tags ext = inForce r.values d tags ext := by
+  rw [src_Value]; exact value_eq_inForce r.values d tags ext hreal hdesc
+
+example : (∀ v ∈ ex, sinceReal v = true) ∧ descendingFor ex [] [] = true ∧
+    (RatesSrc.RateDef_Value ⟨"standard", false, [], ex⟩ ⟨2012, 9, 1⟩ [] []).map (·.percent) = some (21, 2) := by decide
+
+/-- a value takes effect on its start date itself, in the regenerated code -/
+theorem spec_of_the_source_start_date (r : RateDef) (d : Date) (tags : List String) (ext : Ext)
+    (hreal : ∀ v ∈ r.values, sinceReal v = true)
+    (hdesc : descendingFor r.values tags ext = true)
+    (v : RateValue) (hv : v ∈ r.values) (ha : applies v tags ext = true) (hs : v.since = some d) :
+    RatesSrc.RateDef_Value r d tags ext = some v := by
+  rw [src_Value]; exact value_on_start_date r.values d tags ext hreal hdesc v hv ha hs
+
+/-- a date before the first value gives no value, in the regenerated code -/
+theorem spec_of_the_source_before_first (r : RateDef) (d : Date) (tags : List String) (ext : Ext)
+    (hbefore : ∀ v ∈ r.values, applies v tags ext = true →
+      ∃ s, v.since = some s ∧ realDay s = true ∧ dateLt d s = true) :
+    RatesSrc.RateDef_Value r d tags ext = none := by
+  rw [src_Value]; exact value_before_first r.values d tags ext hbefore
+
+example : RatesSrc.RateDef_Value ⟨"standard", false, [], ex⟩ ⟨2010, 6, 30⟩ [] [] = none := by decide
+
+/-- for every shipped rate (outside the known-finding shape), every filter that
+    occurs in it and EVERY date, the regenerated `RateDef.Value` is the value in force -/
+theorem spec_of_the_source_shipped (r : RateDef) (hr : r ∈ allRates Generated.Rates.registry)
+    (hq : qualifiedTie r.values = false) (f : List String × Ext) (hf : f ∈ filtersOf r.values) (d : Date) :
+    RatesSrc.RateDef_Value r d f.1 f.2 = inForce r.values d f.1 f.2 := by
+  rw [src_Value]; exact Expect.shipped_value_eq_inForce r hr hq f hf d
+
+/-- exempt keys yield no percentage and no surcharge, in the regenerated code -/
+theorem spec_of_the_source_exempt (cat : CategoryDef) (c : Combo) (tags : List String) (date : Date) (rate : RateDef)
+    (hk : c.rate ≠ "") (hr : rateDef cat.rates c.rate = some rate) (hx : rate.exempt = true) :
+    (RatesSrc.Combo_prepareRate c cat tags date).1 = none ∧
+    (RatesSrc.Combo_prepareRate c cat tags date).2.percent = none ∧
+    (RatesSrc.Combo_prepareRate c cat tags date).2.surcharge = none := by
+  obtain ⟨c', h1, h2, h3⟩ := exempt_no_percent cat c tags date rate hk hr hx
+  have h := src_prepareRate_model c cat tags date
+  rw [h1] at h
+  exact ⟨h.1, by rw [h.2.2.2.2.1, h2], by rw [h.2.2.2.2.2.1, h3]⟩
+
+/-- the combo receives the percent and surcharge of the row `RateDef.Value`
+    picks, in the regenerated code -/
+theorem spec_of_the_source_uses_value (cat : CategoryDef) (c : Combo) (tags : List String) (date : Date)
+    (rate : RateDef) (v : RateValue)
+    (hk : c.rate ≠ "") (hr : rateDef cat.rates c.rate = some rate) (hx : rate.exempt = false)
+    (hval : value rate.values date tags (mergedExt c rate) = some v) :
+    (RatesSrc.Combo_prepareRate c cat tags date).1 = none ∧
+    (RatesSrc.Combo_prepareRate c cat tags date).2.percent = some v.percent ∧
+    (RatesSrc.Combo_prepareRate c cat tags date).2.surcharge = v.surcharge := by
+  obtain ⟨c', h1, h2, h3⟩ := prepareRate_uses_value cat c tags date rate v hk hr hx hval
+  have h := src_prepareRate_model c cat tags date
+  rw [h1] at h
+  exact ⟨h.1, by rw [h.2.2.2.2.1, h2], by rw [h.2.2.2.2.2.1, h3]⟩
+
+/-- no value for the date is the error `invalid-date`, not a guess, in the regenerated code -/
+theorem spec_of_the_source_before_first_is_error (cat : CategoryDef) (c : Combo) (tags : List String) (date : Date)
+    (rate : RateDef)
+    (hk : c.rate ≠ "") (hr : rateDef cat.rates c.rate = some rate) (hx : rate.exempt = false)
+    (hv : rate.values ≠ [])
+    (hval : value rate.values date tags (mergedExt c rate) = none) :
+    (RatesSrc.Combo_prepareRate c cat tags date).1 = some "invalid-date" := by
+  have h1 := prepareRate_before_first_is_error cat c tags date rate hk hr hx hv hval
+  have h := src_prepareRate_model c cat tags date
+  rw [h1] at h
+  exact h
+
+example : (RatesSrc.Combo_prepareRate ⟨"VAT", "", "standard", none, none, []⟩
+      ⟨"VAT", false, [⟨"exempt", true, [], []⟩, ⟨"standard", false, [("k", "v")], ex⟩]⟩ [] ⟨2012, 9, 1⟩)
+    = (none, ⟨"VAT", "", "standard", some (21, 2), some (52, 3), [("k", "v")]⟩) ∧
+    (RatesSrc.Combo_prepareRate ⟨"VAT", "", "standard", none, none, []⟩
+      ⟨"VAT", false, [⟨"standard", false, [], ex⟩]⟩ [] ⟨2010, 6, 30⟩).1 = some "invalid-date" ∧
+    (RatesSrc.Combo_prepareRate ⟨"VAT", "", "exempt", some (21, 2), none, []⟩
+      ⟨"VAT", false, [⟨"exempt", true, [], ex⟩]⟩ [] ⟨2012, 9, 1⟩).2.percent = none := by decide
+
+end Src
 
 end GoblVerif.Props.C12
